@@ -4,6 +4,7 @@ package c16
 import (
 	"context"
 	"fmt"
+	"io"
 	logslog "log/slog"
 	"strings"
 	"testing"
@@ -98,6 +99,7 @@ type scenario struct {
 	//              active and a record was emitted
 	FlagHow    string
 	OtherFlags slog.Flags // the flags active in the other phase (date/time/us/localtime bits)
+	UsedBefore bool       // the logger printed records (in all formats) before its zone mode and layout were set in place
 }
 
 func layoutPrecision(layout string) time.Duration {
@@ -141,6 +143,23 @@ func run(t vlib.TB, sc scenario) {
 		}
 	}
 	lg := slog.New(opts...)
+	if sc.UsedBefore {
+		// the logger has printed records before its zone mode and layout are set in place (a long-lived logger that is
+		// reconfigured): whatever was resolved for it then is out of date afterwards
+		lg.SetWriter(io.Discard).SetErrorWriter(io.Discard).SetLevel(slog.AlwaysLevel)
+		for _, f := range []string{"color", "logfmt", "json"} {
+			switch f {
+			case "json":
+				lg.SetJSONMode(true)
+			case "logfmt":
+				lg.SetColorMode(false)
+			default:
+				lg.SetColorMode(true)
+			}
+			lg.(slog.LogSlogAware).WriteThru(context.Background(), slog.InfoLevel, sc.TS, 0, "before the time style is set", nil)
+		}
+		lg.SetColorMode(true) // the format a new logger starts in
+	}
 	if !sc.UTCViaOpt {
 		for _, a := range sc.UTCCalls {
 			lg.SetUTCMode(a...)
@@ -336,6 +355,7 @@ func TestTimestamps(t *testing.T) {
 		sc.Via = rapid.SampledFrom([]string{"thru", "thru", "adapter"}).Draw(t, "via")
 		sc.TS = genInstant().Draw(t, "instant")
 		sc.FlagHow = rapid.SampledFrom([]string{"set", "set", "addremove", "scope", "restored"}).Draw(t, "flagHow")
+		sc.UsedBefore = rapid.IntRange(0, 2).Draw(t, "loggerUsedBeforeItsTimeStyleIsSet") == 0
 		for _, f := range []slog.Flags{slog.Ldate, slog.Ltime, slog.Lmicroseconds, slog.LlocalTime} {
 			if rapid.Bool().Draw(t, "otherFlag") {
 				sc.OtherFlags |= f
